@@ -39,7 +39,9 @@ class Build:
         self.scratch = tempfile.mkdtemp(prefix='mirsym-', dir=base)
         atexit.register(self.cleanup)
         for rel in ['Cargo.toml', 'Cargo.lock']:
-            shutil.copy(os.path.join(repo, rel), os.path.join(self.scratch, rel))
+            src = os.path.join(repo, rel)
+            if not os.path.exists(src) and rel == 'Cargo.lock': src = os.path.join('/repo', rel)      # untracked in git worktrees
+            if os.path.exists(src): shutil.copy(src, os.path.join(self.scratch, rel))
         shutil.copytree(os.path.join(repo, 'src'), os.path.join(self.scratch, 'src'))
         self.hash = tree_hash(self.scratch)
         self.timings = {}
